@@ -5,15 +5,38 @@
   (`Removal.SlackOK`).  Question: can that be weakened to "consistent acyclic network, any link
   kinds"?
 
-  **No.**  `C10_removal_tslack_counterexample`: a model with six tasks (FS, FF, SS links), two
-  workers and the absence list `[0]` for which `remove_absence_time_list` applied to the run with
-  absence does NOT give the run without absence — the runs differ in the order in which a worker
-  serves two READY tasks, and even in their length (4 working steps against 5).  Replayed on the
-  Python code (`/repo` at c33e3f4): same logs as the model, same difference.
-  The cause is the test `pre_lft < 0` ("not yet set") in the backward pass of `update_PERT_data`:
-  a task that is WORKING behind a closed finish gate overshoots (`remaining_work_amount < 0`),
-  the `lft` stored along an SS link out of it is `lst(successor) + remaining`, which is negative
-  at a small clock and non-negative a few steps later.
+  **History: it could not.**  The backward pass of `update_PERT_data` tested "`lft` not calculated
+  yet" by `pre_lft < 0`.  A task that is WORKING behind a closed FF / SF finish gate overshoots
+  (`remaining_work_amount < 0`); the `lft` stored along an SS link out of it is
+  `lst(successor) + remaining`, negative at a small clock and non-negative a few steps later, and a
+  negative one was overwritten by the next relaxation.  `SlackShift.cxM` (six tasks, FS / FF / SS
+  links, two workers, absence list `[0]`), `cxM4` (absence list `[0, 1]`) and `cxR` (eight tasks,
+  every skill ≤ 1, absence list `[0]`) were counterexamples — theorems
+  `C10_removal_tslack_counterexample`, `…_counterexample_4`, `…_counterexample_rate1`,
+  `C10_slack_shift_counterexample`, `C10_removal_tslack_general_false` of the previous version of
+  this file — replayed on the Python code (`/repo` at c33e3f4): the run with absence, absence steps
+  deleted, had 4 steps against 5 (13 against 15) and served two READY tasks in the other order.
+
+  **Now: yes.**  The code remembers which tasks it has set in the current pass
+  (`calculated_task_set`, `Pert.done`) and tests `pv not in calculated_task_set or pre_lft >= lft`;
+  the model follows.  On the three former counterexamples the removal property holds
+  (`C10_removal_tslack_cxM`, `_cxM4`, `_cxR`, both sides evaluated; replayed on the repaired Python
+  code: it agrees), and in general:
+
+  * `C10_lst_shift_general`: on a consistent acyclic network, ANY link kinds, ANY remaining work
+    (negative too), ANY old PERT data, two computations on the same remaining work give `lst` and
+    `lft` that differ by the difference `cpl' − cpl` of their critical path lengths.
+  * `C10_slack_shift_general`: hence, `d` steps later, the total slack of EVERY task changes by the
+    SAME constant `(cpl' − cpl) − d`.  The constant is `0` when no remaining work is negative
+    (`C10_slack_shift_nonneg`) but not in general (`C10_slack_shift_constant`,
+    `C10_slack_shift_general_false`: a tail task all of whose forward relaxations are rejected keeps
+    the `eft` of an earlier `update_PERT_data`, and that stale `eft` is the critical path length).
+  * `C10_taskLe_shift_general`: `sort_task_list` compares the tasks in the same way.
+  * **`C10_removal_tslack_general`**: the statement of `C10_removal` with "TSLACK only on
+    finish-to-start networks" weakened to "TSLACK only on consistent acyclic networks" — no
+    condition on the link kinds, none on the signs of the remaining work.  It contains `C10_removal`
+    (`C10_removal_of_general`).  `C10_removal_tslack_of_nonneg` and `C10_removal_tslack_partial`
+    (the strongest statements before the repair) are corollaries.
 -/
 import PDesy.Lemmas.SlackShift
 import PDesy.Model.Ser
@@ -21,9 +44,74 @@ import PDesy.Model.Ser
 namespace PDesy
 open PDesy.Removal PDesy.Idem PDesy.PertSpec PDesy.SlackShift
 
-/-! ### the counterexample -/
+/-! ### the general statements -/
 
-/-- **C10.3 fails for TSLACK on a general acyclic network.**
+/-- **C10.3, `lst` and `lft` on general networks.**  Consistent link lists (`GraphOK`), no cycle,
+ANY mix of FS / SS / FF / SF links; `l` and `l'` have the same remaining work (any signs) and
+arbitrary old PERT data; `time`, `time'` arbitrary.  Then every `lst` and every `lft` below `m.nT`
+computed by `pert` at `time'` on `l'` is the one computed at `time` on `l` plus the difference of the
+two critical path lengths.  (The backward pass contains no comparison with an absolute number.) -/
+theorem C10_lst_shift_general {m : Model} (hok : GraphOK m) (hac : Acyclic m) (l l' : Live)
+    (hr : l'.rem = l.rem) (time time' : Nat) :
+    ∀ t, t < m.nT →
+      (pert m time' l').lst t = (pert m time l).lst t + ((pert m time' l').cpl - (pert m time l).cpl) ∧
+      (pert m time' l').lft t = (pert m time l).lft t + ((pert m time' l').cpl - (pert m time l).cpl) :=
+  pert_lst_shift hok hac l l' hr time time'
+
+/-- **C10.3, total slack on general networks: the same up to ONE constant.**  Under the same
+hypotheses the total slack `lst − est` of every task below `m.nT`, computed `d` steps later, is the
+earlier one plus `(cpl' − cpl) − d` — the same amount for all tasks. -/
+theorem C10_slack_shift_general {m : Model} (hok : GraphOK m) (hac : Acyclic m) (l l' : Live)
+    (hr : l'.rem = l.rem) (time d : Nat) :
+    ∀ t, t < m.nT → (pert m (time + d) l').lst t - (pert m (time + d) l').est t =
+      (pert m time l).lst t - (pert m time l).est t +
+        (((pert m (time + d) l').cpl - (pert m time l).cpl) - (d : Rat)) :=
+  pert_slack_shift_dag hok hac l l' hr time d
+
+/-- **C10.3, the comparison of `sort_task_list`** for every rule but FIFO, TSLACK on any consistent
+acyclic network (`DagOK m = GraphOK m ∧ Acyclic m`), any link kinds, any remaining work. -/
+theorem C10_taskLe_shift_general (m : Model) (hwf : WF m) (rule : TaskRule) (hrule : rule ≠ .fifo)
+    (l l' : Live) (hr : l'.rem = l.rem) (hsl : rule = .tslack → DagOK m)
+    (time d : Nat) (lg lg' : Logs) (a b : Nat) (ha : a < m.nT) (hb : b < m.nT) :
+    taskLe m (pert m (time + d) l') lg' rule a b = taskLe m (pert m time l) lg rule a b :=
+  taskLe_pert_shift_dag m hwf rule hrule l l' hr hsl time d lg lg' a b ha hb
+
+/-- **C10.3 with TSLACK on general acyclic networks.**  The statement of `C10_removal` with the
+field `slack : rule = .tslack → SlackOK m` (finish-to-start links only) of `Removal.ModelOK`
+weakened to `rule = .tslack → GraphOK m ∧ Acyclic m` (`ModelOKw DagOK`: consistent link lists, no
+cycle, ANY mix of FS / SS / FF / SF links).  The other hypotheses are those of `C10_removal`: no
+individual absences, no component lists an automatic task, in-range links, rule ≠ FIFO, non-negative
+work amounts and skills (`WorkOK`), both `initialize` flags set,
+`perform_auto_task_while_absence_time` off, run A ends with SUCCESS.  For every absence list `L`:
+deleting the project-wide absence steps from the result of the run with `L`
+(`remove_absence_time_list`) gives exactly the logs, the clock and the status of the run without
+absence, which ends with SUCCESS as well. -/
+theorem C10_removal_tslack_general (m : Model) (p : Params) (L : List Nat) (s : St)
+    (hm : ModelOKw DagOK m p.rule) (hw : WorkOK m) (hs : p.initState = true)
+    (hl : p.initLog = true) (hflag : p.autoFlag = false)
+    (hsucc : (simulate m { p with absence := L } s).status = .success) :
+    (removeAbs m (simulate m { p with absence := L } s)).logs = (simulate m { p with absence := [] } s).logs ∧
+    (removeAbs m (simulate m { p with absence := L } s)).time = (simulate m { p with absence := [] } s).time ∧
+    (removeAbs m (simulate m { p with absence := L } s)).status =
+      (simulate m { p with absence := [] } s).status ∧
+    (simulate m { p with absence := [] } s).status = .success :=
+  removal_dag m p L s hm hw hs hl hflag hsucc
+
+/-- `C10_removal` is the special case "TSLACK on finish-to-start networks" -/
+theorem C10_removal_of_general (m : Model) (p : Params) (L : List Nat) (s : St)
+    (hm : ModelOK m p.rule) (hw : WorkOK m) (hs : p.initState = true)
+    (hl : p.initLog = true) (hflag : p.autoFlag = false)
+    (hsucc : (simulate m { p with absence := L } s).status = .success) :
+    (removeAbs m (simulate m { p with absence := L } s)).logs = (simulate m { p with absence := [] } s).logs ∧
+    (removeAbs m (simulate m { p with absence := L } s)).time = (simulate m { p with absence := [] } s).time ∧
+    (removeAbs m (simulate m { p with absence := L } s)).status =
+      (simulate m { p with absence := [] } s).status ∧
+    (simulate m { p with absence := [] } s).status = .success :=
+  C10_removal_tslack_general m p L s (modelOKw_dag_of m p.rule hm) hw hs hl hflag hsucc
+
+/-! ### the former counterexamples -/
+
+/-- **The first former counterexample now satisfies C10.3.**
 
 Model `SlackShift.cxM` (task list in this order, one team with both workers, targeted at all
 tasks, no component, no workplace):
@@ -36,112 +124,334 @@ tasks, no component, no workplace):
 * `O2` automatic, work 1, input `P` (FS);
 * worker `w0`: skill 1 for `K`, `G`, `H`;  worker `w1`: skill 3 for `P`.
 
-Every hypothesis of `C10_removal` holds except that the network is not finish-to-start only; it
-is consistent (`GraphOK`) and acyclic.  Rule TSLACK, `perform_auto_task_while_absence_time` off,
-absence list `[0]`.  Both runs end with SUCCESS.
-
-Run B (no absence): step 0 `w0→K`, `w1→P` (remaining work of `P`: 1 − 3 = −2, it stays WORKING
-until `G` is FINISHED); at time 1 `G` has total slack 4, `H` 2, so `w0→H` at step 1, `w0→G` at
-steps 2, 3; `P` finishes at time 4, `O2` runs at step 4; 5 steps.
-Run A (absence `[0]`): at time 2, on the same remaining work, `G` has total slack 0, `H` 2, so
-`w0→G` at steps 2, 3, `w0→H` at step 4 together with `O2`; 5 steps, of which 1 absence step.
-After `remove_absence_time_list` run A has 4 steps, run B has 5, and the state log of `H` is
-`[NONE, READY, READY, WORKING]` against `[NONE, WORKING, FINISHED, FINISHED, FINISHED]`. -/
-theorem C10_removal_tslack_counterexample :
-    ModelOKw (fun m => GraphOK m ∧ Acyclic m) cxM .tslack ∧ WorkOK cxM ∧
+Rule TSLACK, `perform_auto_task_while_absence_time` off, absence list `[0]`.  Step 0 `w0→K`,
+`w1→P` (remaining work of `P`: 1 − 3 = −2, it stays WORKING until `G` is FINISHED and overshoots).
+Before the repair of the backward pass run B (no absence) gave `G` the total slack 4 and `H` 2 at
+time 1 (the stored `lft(P) = −1` was taken for "not calculated" and overwritten) and served `H`
+first, run A (time 2, `lft(P) = 0`) gave `G` the slack 0 and served `G` first: 5 steps against 4
+after `remove_absence_time_list`.  Now both runs serve `G, G, H`; run A takes 5 steps of which 1
+absence step, run B 4, and the logs agree (both sides evaluated; the first conjuncts say that the
+hypotheses of `C10_removal_tslack_general` hold). -/
+theorem C10_removal_tslack_cxM :
+    ModelOKw DagOK cxM .tslack ∧ WorkOK cxM ∧
     (simulate cxM { absence := [0], maxTime := 40 } St.fresh).status = .success ∧
+    (simulate cxM { absence := [0], maxTime := 40 } St.fresh).time = 5 ∧
     (simulate cxM { absence := [], maxTime := 40 } St.fresh).status = .success ∧
+    (simulate cxM { absence := [], maxTime := 40 } St.fresh).time = 4 ∧
     (removeAbs cxM (simulate cxM { absence := [0], maxTime := 40 } St.fresh)).time = 4 ∧
-    (simulate cxM { absence := [], maxTime := 40 } St.fresh).time = 5 ∧
-    (removeAbs cxM (simulate cxM { absence := [0], maxTime := 40 } St.fresh)).logs.tState 2 =
-      [.none, .ready, .ready, .working] ∧
-    (simulate cxM { absence := [], maxTime := 40 } St.fresh).logs.tState 2 =
-      [.none, .working, .finished, .finished, .finished] ∧
-    (removeAbs cxM (simulate cxM { absence := [0], maxTime := 40 } St.fresh)).logs ≠
-      (simulate cxM { absence := [], maxTime := 40 } St.fresh).logs := by
-  refine ⟨cxM_ok .tslack (by decide), cxM_workOK, by decide +kernel, by decide +kernel,
-    by decide +kernel, by decide +kernel, by decide +kernel, by decide +kernel, ?_⟩
-  intro h
-  have h2 := congrArg (fun g => g.tState 2) h
-  revert h2
-  decide +kernel
-
-/-- the worker's side: whom `w0` serves at each (remaining) step -/
-example :
     (removeAbs cxM (simulate cxM { absence := [0], maxTime := 40 } St.fresh)).logs.wAsg 0 =
       [[0], [1], [1], [2]] ∧
-    (simulate cxM { absence := [], maxTime := 40 } St.fresh).logs.wAsg 0 = [[0], [2], [1], [1], []] ∧
-    (simulate cxM { absence := [], maxTime := 40 } St.fresh).logs.tRem 3 = [-2, -5, -8, -11, 0] := by
+    (simulate cxM { absence := [], maxTime := 40 } St.fresh).logs.wAsg 0 = [[0], [1], [1], [2]] ∧
+    (simulate cxM { absence := [], maxTime := 40 } St.fresh).logs.tRem 3 = [-2, -5, -8, 0] ∧
+    putLogs cxM (removeAbs cxM (simulate cxM { absence := [0], maxTime := 40 } St.fresh)).logs =
+      putLogs cxM (simulate cxM { absence := [], maxTime := 40 } St.fresh).logs := by
+  refine ⟨cxM_ok .tslack (by decide), cxM_workOK, ?_⟩
   decide +kernel
 
-/-- **The statement of `C10_removal` with `SlackOK` weakened to "consistent and acyclic" is
-false.**  (`ModelOKw S` is `Removal.ModelOK` with the field `slack : rule = .tslack → S m`.) -/
-theorem C10_removal_tslack_general_false :
-    ¬ ∀ (m : Model) (p : Params) (L : List Nat) (s : St),
-      ModelOKw (fun m => GraphOK m ∧ Acyclic m) m p.rule → WorkOK m → p.initState = true →
-      p.initLog = true → p.autoFlag = false →
-      (simulate m { p with absence := L } s).status = .success →
-      (removeAbs m (simulate m { p with absence := L } s)).logs = (simulate m { p with absence := [] } s).logs ∧
-      (removeAbs m (simulate m { p with absence := L } s)).time = (simulate m { p with absence := [] } s).time ∧
-      (removeAbs m (simulate m { p with absence := L } s)).status =
-        (simulate m { p with absence := [] } s).status ∧
-      (simulate m { p with absence := [] } s).status = .success := by
-  intro h
-  have h1 := (h cxM { maxTime := 40 } [0] St.fresh (cxM_ok .tslack (by decide)) cxM_workOK rfl rfl rfl
-    (by decide +kernel)).2.1
-  revert h1
-  decide +kernel
-
-/-- the same with skill 4 for `P` and the absence list `[0, 1]`: there the value the backward
-pass misreads is `−2` in run B (time 1) and `0` in run A (time 3) — the effect does not hinge on
-the stored value being the marker `−1` itself -/
-theorem C10_removal_tslack_counterexample_4 :
-    ModelOKw (fun m => GraphOK m ∧ Acyclic m) cxM4 .tslack ∧
-    (simulate cxM4 { absence := [0, 1], maxTime := 40 } St.fresh).status = .success ∧
-    (removeAbs cxM4 (simulate cxM4 { absence := [0, 1], maxTime := 40 } St.fresh)).time = 4 ∧
-    (simulate cxM4 { absence := [], maxTime := 40 } St.fresh).time = 5 := by
-  refine ⟨cxM4_ok .tslack (by decide), by decide +kernel, by decide +kernel, by decide +kernel⟩
-
-/-- with one absence step only the value is `−1` in run A too, misread in both runs, and the
-removal property holds on this instance -/
+/-- … and by the general theorem (equality of the logs themselves) -/
 example :
-    putLogs cxM4 (removeAbs cxM4 (simulate cxM4 { absence := [0], maxTime := 40 } St.fresh)).logs =
+    (removeAbs cxM (simulate cxM { absence := [0], maxTime := 40 } St.fresh)).logs =
+      (simulate cxM { absence := [], maxTime := 40 } St.fresh).logs :=
+  (C10_removal_tslack_general cxM { maxTime := 40 } [0] St.fresh (cxM_ok .tslack (by decide))
+    cxM_workOK rfl rfl rfl (by decide +kernel)).1
+
+/-- **The second former counterexample** (skill 4 for `P`, absence list `[0, 1]`; the value the
+backward pass used to misread was `−2` in run B, not the marker `−1` itself): 6 steps of which 2
+absence steps against 4, same logs. -/
+theorem C10_removal_tslack_cxM4 :
+    ModelOKw DagOK cxM4 .tslack ∧
+    (simulate cxM4 { absence := [0, 1], maxTime := 40 } St.fresh).status = .success ∧
+    (simulate cxM4 { absence := [0, 1], maxTime := 40 } St.fresh).time = 6 ∧
+    (removeAbs cxM4 (simulate cxM4 { absence := [0, 1], maxTime := 40 } St.fresh)).time = 4 ∧
+    (simulate cxM4 { absence := [], maxTime := 40 } St.fresh).time = 4 ∧
+    putLogs cxM4 (removeAbs cxM4 (simulate cxM4 { absence := [0, 1], maxTime := 40 } St.fresh)).logs =
       putLogs cxM4 (simulate cxM4 { absence := [], maxTime := 40 } St.fresh).logs := by
+  refine ⟨cxM4_ok .tslack (by decide), ?_⟩
   decide +kernel
 
-/-- under every other admitted rule `C10_removal` applies to `cxM` (no condition on link kinds) -/
+/-- **The third former counterexample: all progress rates ≤ 1.**  Model `SlackShift.cxR`: eight
+tasks, three workers, every skill ≤ 1, at most one skilled worker per task, automatic tasks at
+rate 1 (`cxR_rates`); links FS and FF.  Rule TSLACK.  Before the repair, with the absence list
+`[0]`, the run with absence had 13 steps after `remove_absence_time_list` and worker `0` served
+`K, g, g, h, h`, the run without absence had 15 steps and worker `0` served `K, h, h, g, g`.  Now
+both serve `K, g, g, h, h` and take 13 working steps, and the logs agree.  (The absence list
+`[1]`, where the absence step falls into the period in which the tail `q` keeps a stale `eft` and
+the slacks of the two runs differ by a non-zero constant: next `example`.) -/
+theorem C10_removal_tslack_cxR :
+    ModelOKw DagOK cxR .tslack ∧ WorkOK cxR ∧
+    (simulate cxR { absence := [0], maxTime := 80 } St.fresh).status = .success ∧
+    (simulate cxR { absence := [0], maxTime := 80 } St.fresh).time = 14 ∧
+    (removeAbs cxR (simulate cxR { absence := [0], maxTime := 80 } St.fresh)).time = 13 ∧
+    (simulate cxR { absence := [], maxTime := 80 } St.fresh).time = 13 ∧
+    ((removeAbs cxR (simulate cxR { absence := [0], maxTime := 80 } St.fresh)).logs.wAsg 0).take 5 =
+      [[0], [1], [1], [2], [2]] ∧
+    ((simulate cxR { absence := [], maxTime := 80 } St.fresh).logs.wAsg 0).take 5 =
+      [[0], [1], [1], [2], [2]] ∧
+    putLogs cxR (removeAbs cxR (simulate cxR { absence := [0], maxTime := 80 } St.fresh)).logs =
+      putLogs cxR (simulate cxR { absence := [], maxTime := 80 } St.fresh).logs := by
+  refine ⟨cxR_ok .tslack (by decide), cxR_workOK, ?_⟩
+  decide +kernel
+
+/-- `cxR` with the absence list `[1]` (the states of `C10_slack_shift_constant` below lie on these
+runs): 14 steps of which 1 absence step against 13, same logs -/
+example :
+    (simulate cxR { absence := [1], maxTime := 80 } St.fresh).status = .success ∧
+    (simulate cxR { absence := [1], maxTime := 80 } St.fresh).time = 14 ∧
+    (simulate cxR { absence := [], maxTime := 80 } St.fresh).time = 13 ∧
+    putLogs cxR (removeAbs cxR (simulate cxR { absence := [1], maxTime := 80 } St.fresh)).logs =
+      putLogs cxR (simulate cxR { absence := [], maxTime := 80 } St.fresh).logs := by
+  decide +kernel
+
+/-- under every other admitted rule `C10_removal` applied to `cxM` already (no condition on link
+kinds) -/
 example : ∀ rule ∈ [TaskRule.est, .spt, .lpt, .lrpt, .srpt, .lwrpt, .swrpt],
     putLogs cxM (removeAbs cxM (simulate cxM { rule := rule, absence := [0], maxTime := 40 } St.fresh)).logs =
       putLogs cxM (simulate cxM { rule := rule, absence := [], maxTime := 40 } St.fresh).logs := by
   decide +kernel
 
-/-- **Where it comes from: the total slack is not shift invariant** on the states the two runs
-reach after their first working step (same task states, same remaining work `[0, 2, 1, −2, 3, 1]`,
-clocks 1 and 2): slack of `G` 4 against 0, slack of `H` 2 in both; hence a different order of
-`sort_task_list`. -/
-theorem C10_slack_shift_counterexample :
+/-- **Where the difference came from, and that it is gone**: the states the two runs of `cxM` reach
+after their first working step (same task states, same remaining work `[0, 2, 1, −2, 3, 1]`, clocks
+1 and 2) now have the same total slacks and the same order of `sort_task_list` (before the repair:
+slacks `[2, 4, 2, 4, 0, 2]` against `[0, 0, 2, 0, 0, 2]`, orders `[4, 2, 1, 3]` against
+`[1, 3, 4, 2]`). -/
+theorem C10_slack_shift_cxM :
     a2.time = b1.time + 1 ∧
     (List.range 6).map (upd0 cxM a2.live).rem = (List.range 6).map (upd0 cxM b1.live).rem ∧
-    slacks (update cxM b1.time b1.live) = [2, 4, 2, 4, 0, 2] ∧
+    slacks (update cxM b1.time b1.live) = [0, 0, 2, 0, 0, 2] ∧
     slacks (update cxM a2.time a2.live) = [0, 0, 2, 0, 0, 2] ∧
-    sortTasks cxM (update cxM b1.time b1.live) b1.logs .tslack [1, 2, 3, 4] = [4, 2, 1, 3] ∧
+    sortTasks cxM (update cxM b1.time b1.live) b1.logs .tslack [1, 2, 3, 4] = [1, 3, 4, 2] ∧
     sortTasks cxM (update cxM a2.time a2.live) a2.logs .tslack [1, 2, 3, 4] = [1, 3, 4, 2] := by
   decide +kernel
 
-/-- **`Removal.pert_slack_shift` does not extend to general acyclic networks**, not even for
-`l' = l`: -/
+/-- **The slack itself is still not shift invariant — only up to a constant.**  `cxR`, absence list
+`[1]`: the states the two runs reach after their first working step (and, in run A, the absence
+step 1) have the same remaining work `[0, 2, 2, −3/4, −1/8, 1, 10, 1]` and the clocks 1 and 2; the
+critical path length is `21/2` in both (the stale `eft` of the tail `q`), every slack of run A is
+the slack of run B minus 1 (as `C10_slack_shift_general` says: `(21/2 − 21/2) − 1`), and the order of
+`sort_task_list` is the same. -/
+theorem C10_slack_shift_constant :
+    aR.time = bR.time + 1 ∧
+    (List.range 8).map (upd0 cxR aR.live).rem = (List.range 8).map (upd0 cxR bR.live).rem ∧
+    (update cxR bR.time bR.live).cpl = 21/2 ∧ (update cxR aR.time aR.live).cpl = 21/2 ∧
+    slacks8 (update cxR bR.time bR.live) = [-3/8, -3/8, 15/2, -3/8, -3/8, 15/2, -1/2, 15/2] ∧
+    slacks8 (update cxR aR.time aR.live) = [-11/8, -11/8, 13/2, -11/8, -11/8, 13/2, -3/2, 13/2] ∧
+    sortTasks cxR (update cxR bR.time bR.live) bR.logs .tslack [1, 2, 3, 4] = [1, 3, 4, 2] ∧
+    sortTasks cxR (update cxR aR.time aR.live) aR.logs .tslack [1, 2, 3, 4] = [1, 3, 4, 2] := by
+  decide +kernel
+
+/-- **`Removal.pert_slack_shift` (the slack is exactly the same) does not extend to general acyclic
+networks**, not even for `l' = l` — new witness: `cxR` at the state above, task `K`, slack `−3/8` at
+time 1 and `−11/8` at time 2.  (Before the repair the witness was `cxM`.)  What does extend is
+`C10_slack_shift_general`. -/
 theorem C10_slack_shift_general_false :
     ¬ ∀ (m : Model) (l l' : Live) (time d : Nat), WF m → GraphOK m → Acyclic m → l'.rem = l.rem →
       ∀ t, t < m.nT → (pert m (time + d) l').lst t - (pert m (time + d) l').est t =
         (pert m time l).lst t - (pert m time l).est t := by
   intro h
-  exact cx_slack_same_state
-    (h cxM (upd0 cxM b1.live) (upd0 cxM b1.live) 1 1 cxM_wf cxM_graphOK cxM_acyclic rfl 1 (by decide))
+  exact cxR_slack_same_state
+    (h cxR (upd0 cxR bR.live) (upd0 cxR bR.live) 1 1 cxR_wf cxR_graphOK cxR_acyclic rfl 0 (by decide))
 
-#print axioms PDesy.C10_removal_tslack_counterexample
-#print axioms PDesy.C10_removal_tslack_general_false
-#print axioms PDesy.C10_removal_tslack_counterexample_4
-#print axioms PDesy.C10_slack_shift_counterexample
+/-! ### no negative remaining work: the constant is zero -/
+
+/-- **C10.3, `est` and `lst` on general networks.**  Consistent link lists (`GraphOK`), no cycle,
+ANY mix of FS / SS / FF / SF links; `l` has no negative remaining work and `l'` has the same
+remaining work.  Then `pert` at time `time + d` on `l'` gives every `est` and every `lst` below
+`m.nT` exactly `d` later than `pert` at time `time` on `l`. -/
+theorem C10_pert_shift_nonneg {m : Model} (hok : GraphOK m) (hac : Acyclic m) (l l' : Live)
+    (hr : l'.rem = l.rem) (hnn : ∀ t, t < m.nT → 0 ≤ l.rem t) (time d : Nat) :
+    ∀ t, t < m.nT → (pert m (time + d) l').est t = (pert m time l).est t + (d : Rat) ∧
+      (pert m (time + d) l').lst t = (pert m time l).lst t + (d : Rat) :=
+  pert_shift_nonneg hok hac l l' hr hnn time d
+
+/-- **C10.3, total slack on general networks without negative remaining work.**  Under the same
+hypotheses the total slack `lst − est` of every task does not depend on the time: the constant of
+`C10_slack_shift_general` is `0`.  (`Removal.pert_slack_shift` without "finish-to-start only".) -/
+theorem C10_slack_shift_nonneg {m : Model} (hok : GraphOK m) (hac : Acyclic m) (l l' : Live)
+    (hr : l'.rem = l.rem) (hnn : ∀ t, t < m.nT → 0 ≤ l.rem t) (time d : Nat) :
+    ∀ t, t < m.nT → (pert m (time + d) l').lst t - (pert m (time + d) l').est t =
+      (pert m time l).lst t - (pert m time l).est t :=
+  pert_slack_shift_nonneg hok hac l l' hr hnn time d
+
+/-- `C10_taskLe_shift_general` in the form it had before the repair of the backward pass: TSLACK on
+any consistent acyclic network (`DagOK`) on states without negative remaining work (that
+hypothesis is no longer used). -/
+theorem C10_taskLe_shift_nonneg (m : Model) (hwf : WF m) (rule : TaskRule) (hrule : rule ≠ .fifo)
+    (l l' : Live) (hr : l'.rem = l.rem)
+    (hsl : rule = .tslack → DagOK m ∧ ∀ t, t < m.nT → 0 ≤ l.rem t)
+    (time d : Nat) (lg lg' : Logs) (a b : Nat) (ha : a < m.nT) (hb : b < m.nT) :
+    taskLe m (pert m (time + d) l') lg' rule a b = taskLe m (pert m time l) lg rule a b :=
+  taskLe_pert_shift_nonneg m hwf rule hrule l l' hr hsl time d lg lg' a b ha hb
+
+/-- all four link kinds: `0 →FS 1`, `0 →SS 2`, `1 →FF 3`, `2 →SF 3` -/
+def allM : Model where
+  nT := 4
+  nW := 0
+  nF := 0
+  nTeam := 0
+  nWp := 0
+  nC := 0
+  task := fun t =>
+    match t with
+    | 0 => { name := 0, work := 2, outputs := [(1, .fs), (2, .ss)] }
+    | 1 => { name := 1, work := 3, inputs := [(0, .fs)], outputs := [(3, .ff)] }
+    | 2 => { name := 2, work := 1, inputs := [(0, .ss)], outputs := [(3, .sf)] }
+    | _ => { name := 3, work := 2, inputs := [(1, .ff), (2, .sf)] }
+  worker := fun _ => {}
+  fac := fun _ => {}
+  team := fun _ => {}
+  wp := fun _ => {}
+  comp := fun _ => {}
+
+/-- the state with the full work amounts left -/
+def allL : Live := { Live.empty with rem := fun t => (allM.task t).work }
+
+theorem allM_cases {t : Nat} (ht : t < allM.nT) : t = 0 ∨ t = 1 ∨ t = 2 ∨ t = 3 := by
+  simp only [allM] at ht; omega
+
+theorem allM_acyclic : Acyclic allM := by
+  refine ⟨id, ?_⟩
+  intro t ht
+  rcases allM_cases ht with rfl | rfl | rfl | rfl <;> decide +kernel
+
+theorem allL_nonneg : ∀ t, t < allM.nT → 0 ≤ allL.rem t := by
+  intro t ht
+  rcases allM_cases ht with rfl | rfl | rfl | rfl <;> decide +kernel
+
+/-- `C10_slack_shift_nonneg` applies to a network with all four link kinds … -/
+example : ∀ t, t < allM.nT → (pert allM (0 + 3) allL).lst t - (pert allM (0 + 3) allL).est t =
+    (pert allM 0 allL).lst t - (pert allM 0 allL).est t :=
+  C10_slack_shift_nonneg (by decide +kernel) allM_acyclic allL allL rfl allL_nonneg 0 3
+
+/-- … where the slacks are not all zero (evaluated: `est`, `lst` at time 0 and at time 3) -/
+example :
+    (List.range 4).map (fun t => ((pert allM 0 allL).est t, (pert allM 0 allL).lst t)) =
+      [(0, 1), (2, 3), (0, 3), (2, 3)] ∧
+    (List.range 4).map (fun t => ((pert allM 3 allL).est t, (pert allM 3 allL).lst t)) =
+      [(3, 4), (5, 6), (3, 6), (5, 6)] := by decide +kernel
+
+/-- and to the network of the former counterexample, as long as nothing has overshot (the state
+the runs enter their loops with) -/
+example : ∀ t, t < cxM.nT →
+    (pert cxM (0 + 7) (enter cxM pB St.fresh).live).lst t - (pert cxM (0 + 7) (enter cxM pB St.fresh).live).est t =
+      (pert cxM 0 (enter cxM pB St.fresh).live).lst t - (pert cxM 0 (enter cxM pB St.fresh).live).est t :=
+  C10_slack_shift_nonneg cxM_graphOK cxM_acyclic _ _ rfl
+    (fun t ht => by
+      rcases cxM_cases ht with rfl | rfl | rfl | rfl | rfl | rfl <;> decide +kernel) 0 7
+
+/-- **C10.3 for TSLACK on a general acyclic network, given that nothing overshoots** — the
+strongest statement before the repair of the backward pass, now a corollary of
+`C10_removal_tslack_general` (the hypotheses on `J` are not used any more).
+`ModelOKw DagOK` is `Removal.ModelOK` with "TSLACK only on finish-to-start networks" replaced by
+"TSLACK only on consistent acyclic networks" (any link kinds).  `J` is any invariant of the run
+with absence list `L` (it holds when the loop is entered and is preserved by `__update` followed
+by one step) under which, if the rule is TSLACK, no task has negative remaining work after
+`check_state(FINISHED)` (`NonNeg`).  Then the conclusion of `C10_removal` holds. -/
+theorem C10_removal_tslack_of_nonneg (m : Model) (p : Params) (L : List Nat) (s : St)
+    (hm : ModelOKw DagOK m p.rule) (hw : WorkOK m) (hs : p.initState = true)
+    (hl : p.initLog = true) (hflag : p.autoFlag = false)
+    (J : St → Prop) (hJ0 : J (enter m { p with absence := L } s))
+    (hJ : ∀ a0, J a0 → J (stepBody m { p with absence := L } (updated m a0)))
+    (hJnn : p.rule = .tslack → ∀ a0, J a0 → NonNeg m a0)
+    (hsucc : (simulate m { p with absence := L } s).status = .success) :
+    (removeAbs m (simulate m { p with absence := L } s)).logs = (simulate m { p with absence := [] } s).logs ∧
+    (removeAbs m (simulate m { p with absence := L } s)).time = (simulate m { p with absence := [] } s).time ∧
+    (removeAbs m (simulate m { p with absence := L } s)).status =
+      (simulate m { p with absence := [] } s).status ∧
+    (simulate m { p with absence := [] } s).status = .success :=
+  removal_nonneg m p L s hm hw hs hl hflag J hJ0 hJ hJnn hsucc
+
+/-- **C10.3 for TSLACK, partial result: networks of FS and SS links.**  The statement of
+`C10_removal` with the field `slack` of `ModelOK` weakened from `SlackOK` (FS links only) to
+`SlackOK2 m = NoFinishGate m ∧ GraphOK m ∧ Acyclic m` (no FF / SF link, consistent, acyclic):
+without a finish gate a task that reaches remaining work ≤ 0 is FINISHED (and clamped to 0) by the
+next `__update`, so no remaining work is negative where the tasks are sorted.
+(Before the repair of the backward pass this was where the property stopped; now a corollary of
+`C10_removal_tslack_general`, which has no condition on the link kinds.) -/
+theorem C10_removal_tslack_partial (m : Model) (p : Params) (L : List Nat) (s : St)
+    (hm : ModelOKw SlackOK2 m p.rule) (hw : WorkOK m) (hs : p.initState = true)
+    (hl : p.initLog = true) (hflag : p.autoFlag = false)
+    (hsucc : (simulate m { p with absence := L } s).status = .success) :
+    (removeAbs m (simulate m { p with absence := L } s)).logs = (simulate m { p with absence := [] } s).logs ∧
+    (removeAbs m (simulate m { p with absence := L } s)).time = (simulate m { p with absence := [] } s).time ∧
+    (removeAbs m (simulate m { p with absence := L } s)).status =
+      (simulate m { p with absence := [] } s).status ∧
+    (simulate m { p with absence := [] } s).status = .success :=
+  removal_noGate m p L s hm hw hs hl hflag hsucc
+
+/-- four tasks, FS and SS links: `0` ordinary (work 2); `1` automatic (work 2), start-to-start
+after `0`; `2` ordinary (work 1), finish-to-start after `0`; `3` ordinary (work 1),
+finish-to-start after `1` and start-to-start after `2`; one worker for the ordinary ones -/
+def fsM : Model where
+  nT := 4
+  nW := 1
+  nF := 0
+  nTeam := 1
+  nWp := 0
+  nC := 0
+  task := fun t =>
+    match t with
+    | 0 => { name := 0, work := 2, outputs := [(1, .ss), (2, .fs)] }
+    | 1 => { name := 1, work := 2, isAuto := true, inputs := [(0, .ss)], outputs := [(3, .fs)] }
+    | 2 => { name := 2, work := 1, inputs := [(0, .fs)], outputs := [(3, .ss)] }
+    | _ => { name := 3, work := 1, inputs := [(1, .fs), (2, .ss)] }
+  worker := fun _ => { team := 0, skills := [(0, 1), (2, 1), (3, 1)] }
+  fac := fun _ => {}
+  team := fun _ => { workers := [0], targets := [0, 1, 2, 3] }
+  wp := fun _ => {}
+  comp := fun _ => {}
+
+theorem fsM_cases {t : Nat} (ht : t < fsM.nT) : t = 0 ∨ t = 1 ∨ t = 2 ∨ t = 3 := by
+  simp only [fsM] at ht; omega
+
+theorem fsM_ok (rule : TaskRule) (h : rule ≠ .fifo) : ModelOKw SlackOK2 fsM rule where
+  noInd := ⟨fun _ _ => rfl, fun _ _ => rfl⟩
+  compNoAuto := fun c t ht => by simp [fsM] at ht
+  wf := by
+    intro t ht
+    rcases fsM_cases ht with rfl | rfl | rfl | rfl <;> decide +kernel
+  notFifo := h
+  slack := fun _ => by
+    refine ⟨?_, by decide +kernel, ⟨id, ?_⟩⟩
+    · intro t ht
+      rcases fsM_cases ht with rfl | rfl | rfl | rfl <;> decide +kernel
+    · intro t ht
+      rcases fsM_cases ht with rfl | rfl | rfl | rfl <;> decide +kernel
+
+theorem fsM_workOK : WorkOK fsM := by
+  intro t ht
+  rcases fsM_cases ht with rfl | rfl | rfl | rfl <;> decide +kernel
+
+/-- `C10_removal_tslack_partial` applies (rule TSLACK, absence list `[1, 1, 3, 30]`; run A takes 6
+steps of which 2 are absence steps, run B takes 4) … -/
+example :
+    (removeAbs fsM (simulate fsM { absence := [1, 1, 3, 30], maxTime := 40 } St.fresh)).logs =
+      (simulate fsM { absence := [], maxTime := 40 } St.fresh).logs :=
+  (C10_removal_tslack_partial fsM { maxTime := 40 } [1, 1, 3, 30] St.fresh (fsM_ok .tslack (by decide))
+    fsM_workOK rfl rfl rfl (by decide +kernel)).1
+
+/-- … and, independently of the theorem, both sides evaluated -/
+example :
+    (simulate fsM { absence := [1, 1, 3, 30], maxTime := 40 } St.fresh).time = 6 ∧
+    (simulate fsM { absence := [], maxTime := 40 } St.fresh).time = 4 ∧
+    putLogs fsM (removeAbs fsM (simulate fsM { absence := [1, 1, 3, 30], maxTime := 40 } St.fresh)).logs =
+      putLogs fsM (simulate fsM { absence := [], maxTime := 40 } St.fresh).logs := by
+  decide +kernel
+
+#print axioms PDesy.C10_lst_shift_general
+#print axioms PDesy.C10_slack_shift_general
+#print axioms PDesy.C10_taskLe_shift_general
+#print axioms PDesy.C10_removal_tslack_general
+#print axioms PDesy.C10_removal_of_general
+#print axioms PDesy.C10_removal_tslack_cxM
+#print axioms PDesy.C10_removal_tslack_cxM4
+#print axioms PDesy.C10_removal_tslack_cxR
+#print axioms PDesy.C10_slack_shift_cxM
+#print axioms PDesy.C10_slack_shift_constant
 #print axioms PDesy.C10_slack_shift_general_false
+#print axioms PDesy.C10_pert_shift_nonneg
+#print axioms PDesy.C10_slack_shift_nonneg
+#print axioms PDesy.C10_taskLe_shift_nonneg
+#print axioms PDesy.C10_removal_tslack_of_nonneg
+#print axioms PDesy.C10_removal_tslack_partial
 
 end PDesy
